@@ -201,9 +201,12 @@ Definition full_tpl (ops : list rop) (rt : route) : string :=
   prefix_of (List.length ops) ops (rt_router rt) ++ rt_tpl rt.
 (* a reachable route with its full template, split once *)
 Record croute := { cr_route : route; cr_tpl : string; cr_segs : list string }.
-Definition compile (ops : list rop) : list croute :=
+(* the routes a request to the served root router `root` is matched against (its own and its sub-routers') *)
+Definition routes_of_root (ops : list rop) (root : nat) : list route :=
+  filter (fun rt => Nat.eqb (root_of (List.length ops) ops (rt_router rt)) root) (reachable_routes ops).
+Definition compile (ops : list rop) (root : nat) : list croute :=
   map (fun rt => {| cr_route := rt; cr_tpl := full_tpl ops rt; cr_segs := split_on "/"%char (full_tpl ops rt) |})
-      (reachable_routes ops).
+      (routes_of_root ops root).
 Definition path_match (cr : croute) (path : string) (psegs : list string) : bool :=
   if rt_prefix (cr_route cr) then String.prefix (cr_tpl cr) path else segs_match (cr_segs cr) psegs.
 Definition method_ok (rt : route) (m : string) : bool :=
@@ -222,8 +225,8 @@ Fixpoint find_route (crs : list croute) (m path : string) (psegs : list string) 
         if method_ok (cr_route cr) m then FRoute (cr_route cr) else find_route rest m path psegs true
       else find_route rest m path psegs seen
   end.
-Definition lookup (ops : list rop) (m path : string) : found :=
-  find_route (compile ops) m path (split_on "/"%char path) false.
+Definition lookup (ops : list rop) (root : nat) (m path : string) : found :=
+  find_route (compile ops root) m path (split_on "/"%char path) false.
 (* every template and matcher is inside the fragment that path_match / method_ok transcribe exactly *)
 Definition dispatch_exact (ops : list rop) : bool :=
   forallb (fun rt => rt_exact rt && tpl_supported (rt_prefix rt) (full_tpl ops rt)) (routes ops)
@@ -295,14 +298,14 @@ Section SERVE.
 
   Definition plain (st : N) : response :=
     {| p_status := st; p_www := false; p_gzip := false; p_cors := false; p_trace := [] |}.
-  (* Router.ServeHTTP of a served root router; crs = compile ops *)
+  (* Router.ServeHTTP of the served root router `root`; crs = compile ops root *)
   Definition dispatch_c (crs : list croute) (ops : list rop) (q : request) : response :=
     match find_route crs (q_method q) (q_path q) (split_on "/"%char (q_path q)) false with
     | FRoute rt => serve (chain ops (rt_router rt)) q
     | F405 => plain 405
     | F404 => plain 404
     end.
-  Definition dispatch (ops : list rop) (q : request) : response := dispatch_c (compile ops) ops q.
+  Definition dispatch (ops : list rop) (root : nat) (q : request) : response := dispatch_c (compile ops root) ops q.
 End SERVE.
 
 (* ---------------------------------------------------------------- correspondence cases *)
@@ -323,8 +326,8 @@ Definition tag_handler : request -> N := q_tag.
 Definition obs_agrees (p : response) (o : obs) : bool :=
   N.eqb (p_status p) (o_status o) && Bool.eqb (handler_ran p) (o_handler o) && Bool.eqb (p_www p) (o_www o)
   && Bool.eqb (p_gzip p) (o_gzip o) && Bool.eqb (p_cors p) (o_cors o).
-Definition mismatches (check_err : bool) (login pass : string) (ops : list rop) (cs : list rcase) : list N :=
-  let crs := compile ops in
+Definition mismatches (check_err : bool) (login pass : string) (ops : list rop) (root : nat) (cs : list rcase) : list N :=
+  let crs := compile ops root in
   flat_map (fun c => if obs_agrees (dispatch_c check_err login pass no_other tag_handler crs ops (c_req c)) (c_obs c)
                      then [] else [c_id c]) cs.
 
